@@ -288,10 +288,8 @@ def pinned_witness(finding):
 POOL = [r'a+', r'b(a*)b', r'\d+', r'x(.*?)y', r'(c)', r'[aeiou]{2}', r'q(\w)', r'(\d)\d', r'm(.+)m', r'z', r'(?=a)', r'a(b)?']
 
 
-def check_random(ctx, rng):
-    ctx.ev()
+def random_case(rng):
     k = rng.randint(1, 4)
-    types = []
     spec = []
     for i in range(k):
         pat = rng.choice(POOL)
@@ -299,14 +297,24 @@ def check_random(ctx, rng):
         pg = rng.choice((0, 1)) if groups else 0
         if pat == r'a(b)?':
             pg = 0
-        prec = rng.randint(3, 7)
-        inner = rng.random() < 0.6
+        spec.append([pat, pg, rng.randint(3, 7), rng.random() < 0.6])
+    text = ''.join(rng.choice('aabbcxyqmz012 e') for _ in range(rng.randint(1, 30))).strip() or 'a'
+    text = re.sub(r' +', ' ', text)
+    return spec, text
+
+
+def check_random(ctx, rng):
+    spec, text = random_case(rng)
+    check_random_case(ctx, spec, text)
+
+
+def check_random_case(ctx, spec, text):
+    ctx.ev()
+    types = []
+    for i, (pat, pg, prec, inner) in enumerate(spec):
         T = type('Rnd%d' % i, (Rec,), {'precedence': prec, 'parse_inner': inner, 'parse_group': pg, 'pattern': re.compile(pat)})
         T.find = classmethod(lambda cls, string: [m for m in cls.pattern.finditer(string) if m.end() > m.start()])
         types.append(T)
-        spec.append([pat, pg, prec, inner])
-    text = ''.join(rng.choice('aabbcxyqmz012 e') for _ in range(rng.randint(1, 30))).strip() or 'a'
-    text = re.sub(r' +', ' ', text)
     case = {'random': spec, 'text': text}
     try:
         doc, inside_types, after_block, after_span, doc_after = observe(types, text)
@@ -400,4 +408,4 @@ def replay(ctx, case):
     if 'cfg' in case:
         check_pair(ctx, tuple(case['cfg']), case.get('wrapped', False))
     else:
-        ctx.note('random-set cases are replayed by seed (see replay file: seed/shard/case_index)')
+        check_random_case(ctx, case['random'], case['text'])
